@@ -79,6 +79,19 @@ pub fn emit(dir: &Path) {
       });
       write(dir, "KF-3b.json", "C04", "KF-3b", Program { rels, rules, macros: vec![] }, Kind::Ascent, vec![], db);
    }
+   // KF-3c: the join form: the first two clauses are joined on the lattice column of the first one, and the planner
+   // drives the loop from the second clause, looking the lattice relation up through stale keys
+   {
+      let rels = vec![rel("arc", vec![Ty::I32, Ty::U32], true), lat("dep", vec![Ty::U32]), rel("low", vec![Ty::I32], false)];
+      let rules = vec![
+         Rule { heads: vec![hd("dep", vec![v("r")])], body: vec![cl("arc", vec![Arg::Wild, av("r")])] },
+         Rule { heads: vec![hd("low", vec![v("en")])], body: vec![cl("dep", vec![av("zc")]), cl("arc", vec![av("en"), av("zc")])] },
+      ];
+      let mut db = Db::default();
+      let arc = [(0, 0), (4, 2), (1, 2), (3, 0), (2, 2), (1, 4), (4, 4), (4, 0), (2, 1), (0, 4), (0, 1), (1, 1), (4, 1)];
+      db.rels.insert("arc".into(), arc.iter().map(|(a, b)| vec![i(*a), i(*b)]).collect());
+      write(dir, "KF-3c.json", "C03", "KF-3c", Program { rels, rules, macros: vec![] }, Kind::Ascent, vec![], db);
+   }
    // KF-5: parallel lattice whose non-key indices are Vec-backed: a row number is appended once per improvement
    {
       let rels = vec![
